@@ -70,7 +70,10 @@ class IntervalTree:
         # Hence, we add the original indices to the intervals themselves.
         indices = np.arange(intervals.shape[0]).reshape(intervals.shape[0], 1)
         indexed_intervals = np.hstack([intervals, indices])
-        self.root = self._build_tree(np.sort(indexed_intervals, axis=0))
+        self.size = intervals.shape[0]
+        # Sort the rows by their left end point (each row must stay intact):
+        order = np.argsort(indexed_intervals[:, 0], kind="stable")
+        self.root = self._build_tree(indexed_intervals[order])
 
     def __contains__(self, item):
         if isinstance(item, (tuple, list)):
@@ -79,7 +82,7 @@ class IntervalTree:
             return bool(self._query_point(item, self.root, check_extreme=True))
 
     def _build_tree(self, intervals):
-        if not intervals.any():
+        if intervals.shape[0] == 0:
             return None
 
         center_point = self._get_center(intervals)
@@ -148,7 +151,7 @@ class IntervalTree:
         if (check_extreme
                 and IntervalTree.interval_contains(query_interval, self.left)
                 and IntervalTree.interval_contains(query_interval, self.right)):
-            return []  # TODO: Return all intervals
+            return list(range(self.size))
 
         # Let's start with the centered intervals
         intervals = [int(interval[2]) for interval in node.center
@@ -189,10 +192,10 @@ class IntervalTree:
                      if IntervalTree.interval_contains(interval, point)]
 
         if point < node.center_point and node.left is not None:
-            intervals.extend(self._query_point(point, node))
+            intervals.extend(self._query_point(point, node.left))
 
         if point > node.center_point and node.right is not None:
-            intervals.extend(self._query_point(point, node))
+            intervals.extend(self._query_point(point, node.right))
 
         return intervals
 
